@@ -183,7 +183,7 @@ def r13c(model: Model, rr: RuleResult):
     if "for f in dataclasses.fields(paint_t)" in t and "paint_t(*paint_args)" in t and "globals()[ot_paint.getFormatName()]" in t:
         rr.ok("from_ot builds the class named like the format, arguments in dataclass field order")
     else:
-        rr.bad(ffi, ffi.node, "from_ot no longer builds paint_t(*args) in dataclass field order from the class named like the format", construct="Paint.from_ot shape")
+        rr.bad_shape(ffi, ffi.node, "from_ot no longer builds paint_t(*args) in dataclass field order from the class named like the format", construct="Paint.from_ot shape")
 
 
 @RULES.rule("C13", "R13d", "colour mapping: foreground -> currentColor, palette index kept only for multi-palette fonts, alpha product; COLRv0 layers in order", floor=6)
@@ -311,7 +311,7 @@ def gradient_geometry_rule(model: Model, rr: RuleResult):
                 if ok:
                     rr.ok(f"{qn}: {cls}.{f} <- map_point({base}.{f})")
                 else:
-                    rr.bad(fi, c, f"{cls}.{f} is {'not mapped' if v is None else 'set to ' + short(v)} when the gradient is moved to another frame: "
+                    rr.bad_shape(fi, c, f"{cls}.{f} is {'not mapped' if v is None else 'set to ' + short(v)} when the gradient is moved to another frame: "
                            f"{'p2 is then re-derived perpendicular to p0->p1, which a non-conformal map does not preserve' if f == 'p2' else 'the point stays in the old frame'}",
                            construct=f"{qn}: {f}={short(v) if v is not None else '<missing>'}")
             for f in radii:
